@@ -133,19 +133,20 @@ impl BinRead for EKeyPageEntry {
         // Read ESpec index
         let espec_index = u32::read_options(reader, binrw::Endian::Big, ())?;
 
+        let padding = || binrw::Error::Custom {
+            pos: 0,
+            err: Box::new(std::io::Error::new(
+                std::io::ErrorKind::UnexpectedEof,
+                "Padding detected",
+            )),
+        };
+
         // Check for end-of-page padding. Two sentinel patterns exist:
         // 1. Agent.exe sentinel: espec_index == 0xFFFFFFFF (with any key)
-        // 2. Zero-fill padding: all-zero key bytes AND espec_index == 0 (from
-        //    pages padded with zeros by builders/tools)
-        if espec_index == 0xFFFF_FFFF || (espec_index == 0 && ekey_bytes.iter().all(|&b| b == 0x00))
-        {
-            return Err(binrw::Error::Custom {
-                pos: 0,
-                err: Box::new(std::io::Error::new(
-                    std::io::ErrorKind::UnexpectedEof,
-                    "Padding detected",
-                )),
-            });
+        // 2. Zero-fill padding: the whole record is zero (from pages padded
+        //    with zeros by builders/tools)
+        if espec_index == 0xFFFF_FFFF {
+            return Err(padding());
         }
 
         let encoding_key = EncodingKey::from_bytes(ekey_bytes);
@@ -154,6 +155,12 @@ impl BinRead for EKeyPageEntry {
         let file_size_high = u8::read_options(reader, binrw::Endian::Big, ())?;
         let file_size_low = u32::read_options(reader, binrw::Endian::Big, ())?;
         let file_size = (u64::from(file_size_high) << 32) | u64::from(file_size_low);
+
+        // An all-zero key with espec index 0 is a real entry unless the size
+        // is zero as well: only then is the record indistinguishable from fill
+        if espec_index == 0 && file_size == 0 && ekey_bytes.iter().all(|&b| b == 0x00) {
+            return Err(padding());
+        }
 
         Ok(Self {
             encoding_key,
